@@ -324,13 +324,22 @@ func (d *dec) count(order binary.ByteOrder, level int, minElem int, what string)
 	if err != nil {
 		return 0, err
 	}
+	limited := false
 	if level >= 1 && level <= 3 {
-		if lim := d.lim[level]; lim >= 0 && int64(n) > int64(lim) {
-			return 0, &decErr{class: CTooLarge, level: level, why: fmt.Sprintf("%s %d exceeds limit %d of level %d", what, n, lim, level)}
+		if lim := d.lim[level]; lim >= 0 {
+			limited = true
+			if int64(n) > int64(lim) {
+				return 0, &decErr{class: CTooLarge, level: level, why: fmt.Sprintf("%s %d exceeds limit %d of level %d", what, n, lim, level)}
+			}
 		}
 	}
-	if int64(n)*int64(minElem) > int64(len(d.b)-d.pos) {
-		return 0, &decErr{class: CUnbacked, level: level, why: fmt.Sprintf("%s %d needs %d bytes, %d remain", what, n, int64(n)*int64(minElem), len(d.b)-d.pos)}
+	// A count within an enabled limit may be followed whatever it claims (what
+	// it can make a decoder allocate is bounded by the limit; the input then
+	// simply ends early). Without a limit, a count that drives an up-front
+	// allocation (minElem > 0) must be backed by the remaining input; member
+	// counts (minElem == 0) drive none: members are read until the input ends.
+	if !limited && minElem > 0 && int64(n)*int64(minElem) > int64(len(d.b)-d.pos) {
+		return 0, &decErr{class: CUnbacked, level: level, why: fmt.Sprintf("%s %d needs %d bytes, %d remain, and level %d has no limit", what, n, int64(n)*int64(minElem), len(d.b)-d.pos, level)}
 	}
 	return int(n), nil
 }
@@ -467,7 +476,7 @@ func (d *dec) geom(depth int) (*mgeom.Geom, error) {
 		want := map[uint32]string{4: mgeom.Pt, 5: mgeom.LS, 6: mgeom.Pg}[base]
 		m.T = map[uint32]string{4: mgeom.MPt, 5: mgeom.MLS, 6: mgeom.MPg}[base]
 		level := int(base) - 3
-		n, err := d.count(order, level, 5, "member count")
+		n, err := d.count(order, level, 0, "member count")
 		if err != nil {
 			return nil, err
 		}
@@ -502,7 +511,7 @@ func (d *dec) geom(depth int) (*mgeom.Geom, error) {
 		if d.c.EWKB {
 			level = 1
 		}
-		n, err := d.count(order, level, 5, "member count")
+		n, err := d.count(order, level, 0, "member count")
 		if err != nil {
 			return nil, err
 		}
@@ -532,6 +541,11 @@ func Decode(c Codec, lim Limits, b []byte) Verdict {
 	if err != nil {
 		var de *decErr
 		if errors.As(err, &de) {
+			if d.unspec != "" && de.class != CUnbacked {
+				// an unspecified construct was met before the problem: another
+				// legitimate reading may not reach the problem at all
+				return Verdict{Class: CUnspecified, Why: d.unspec + "; then " + de.why, unspec: d.unspec}
+			}
 			return Verdict{Class: de.class, Level: de.level, Why: de.why, unspec: d.unspec}
 		}
 		return Verdict{Class: CError, Why: err.Error()}
@@ -545,3 +559,31 @@ func Decode(c Codec, lim Limits, b []byte) Verdict {
 // SawUnspecified reports whether an unspecified construct was met before the
 // verdict was reached (relevant when the verdict is an error class).
 func (v Verdict) SawUnspecified() bool { return v.unspec != "" || v.Class == CUnspecified }
+
+// Range is the byte extent of one (sub-)geometry of an encoding.
+type Range struct {
+	Start, End int
+	Depth      int
+	Kind       string
+}
+
+// SubRanges lists the byte extents of every geometry of an encoding, outermost
+// first, from its field map: a geometry starts at its byte-order field and
+// ends where the next geometry of the same or a shallower depth starts.
+func SubRanges(fields []Field, total int) []Range {
+	var out []Range
+	for i, f := range fields {
+		if f.Class != FOrder {
+			continue
+		}
+		end := total
+		for _, g := range fields[i+1:] {
+			if g.Class == FOrder && g.Depth <= f.Depth {
+				end = g.Off
+				break
+			}
+		}
+		out = append(out, Range{Start: f.Off, End: end, Depth: f.Depth, Kind: f.Kind})
+	}
+	return out
+}
